@@ -480,6 +480,27 @@ impl<T: Send + Sync + 'static> Probe<T> {
                     d.act(opt::TERM);
                 }
             },
+            opt::PULL => {
+                self.act(opt::PULL);
+                // a sink may do more than one thing inside one handler: Pull, then dispose
+                let menu2 = with(|ex| {
+                    let st = ex.probes[p as usize].clone();
+                    if !st.can_act() {
+                        return vec![];
+                    }
+                    let mut m = vec![opt::NOTHING, opt::TERM];
+                    if ex.cfg.probe_err {
+                        m.push(opt::ERR);
+                    }
+                    m
+                });
+                if menu2.len() >= 2 {
+                    match choose_opt(Kind::Dev, What::React2(p, mk), &menu2) {
+                        opt::NOTHING => {},
+                        c => self.act(c),
+                    }
+                }
+            },
             c => self.act(c),
         }
     }
